@@ -6,6 +6,7 @@ import (
 	"go/token"
 	"go/types"
 	"math"
+	"time"
 
 	"gosym/sym"
 
@@ -126,6 +127,9 @@ func (m *Machine) callValue(fv Value, args []Value) Value {
 		m.goPanic("call of nil function")
 	}
 	if cl.Native != "" {
+		if rt, ok := cl.Recv.(ReflType); ok {
+			return m.reflTypeMethod(rt, cl.Native[len("reflect.Type."):], args)
+		}
 		nf, ok := m.natives[cl.Native]
 		if !ok {
 			m.unsupported("native %s", cl.Native)
@@ -179,8 +183,14 @@ func (m *Machine) run(fr *Frame) Value {
 			}
 			fr.visits[block]++
 			if fr.visits[block] > m.Cfg.MaxVisits {
-				m.Stats.UnwindHits++
 				fr.cur = block.Instrs[0]
+				if m.Cfg.UnwindIsHang {
+					// totality harnesses: a loop that exceeds the bound on a bounded input is a
+					// hang candidate; the native replay (20 s watchdog) confirms or refutes it
+					m.violation("deadlock", "loop bound exceeded in "+fr.fn.String(), nil, "hang candidate")
+					m.endPath("hang candidate")
+				}
+				m.Stats.UnwindHits++
 				m.unsupported("UNWIND: block visited more than %d times in %s", m.Cfg.MaxVisits, fr.fn.String())
 			}
 		}
@@ -212,6 +222,10 @@ func (m *Machine) run(fr *Frame) Value {
 		for _, in := range block.Instrs[nphi:] {
 			fr.cur = in
 			m.steps++
+			if m.steps&0xfff == 0 && !m.Cfg.Deadline.IsZero() && time.Now().After(m.Cfg.Deadline) {
+				m.deadlineHit = true
+				m.endPath("deadline")
+			}
 			if m.steps > m.Cfg.MaxSteps && m.initMode == 0 {
 				m.Stats.UnwindHits++
 				m.unsupported("UNWIND: step limit %d exceeded", m.Cfg.MaxSteps)
@@ -389,6 +403,13 @@ func (m *Machine) prepareCall(fr *Frame, c *ssa.CallCommon) (Value, []Value) {
 		recv := m.get(fr, c.Value).(Iface)
 		if recv.T == nil {
 			m.goPanic("runtime error: invalid memory address or nil pointer dereference (nil interface method call)")
+		}
+		if rt, ok := recv.V.(ReflType); ok {
+			name := c.Method.Name()
+			for _, a := range c.Args {
+				args = append(args, m.get(fr, a))
+			}
+			return &Closure{Native: "reflect.Type." + name, Recv: rt}, args
 		}
 		fn := m.prog.LookupMethod(recv.T, c.Method.Pkg(), c.Method.Name())
 		if fn == nil {
@@ -899,6 +920,10 @@ func (m *Machine) sliceElem(s Slice, i *sym.Term) Value {
 
 // elemPtr returns a pointer to element idx of array loc (idx must be in range).
 func (m *Machine) elemPtr(arr *Loc, idx *sym.Term) Ptr {
+	if m.Cfg.ConcIndex && !idx.IsConst() && arr.arrayLen() <= 4096 && arr.FA == nil {
+		// parse-loop strategy: positions become concrete (forked), contents stay symbolic
+		idx = m.i64(m.concretize(idx, 4097))
+	}
 	if arr.Kids != nil {
 		if idx.IsConst() {
 			return Ptr{L: arr.Kids[idx.Int()], I: -1}
